@@ -34,6 +34,9 @@ func SortedEntryKeys(m map[string]*Entry) (keys []string, es map[string]*Entry) 
 func Truncate(path string, capacity int64, f *os.File) error {
 	fileInfo, _ := os.Stat(path)
 	if fileInfo.Size() < capacity {
+		if err := verifFS("truncate", path, capacity, nil); err != nil {
+			return err
+		}
 		if err := f.Truncate(capacity); err != nil {
 			return err
 		}
